@@ -226,4 +226,23 @@ pub fn generate(thorough: bool, seed: u64, em: &mut Emitter) {
     for doc in ["!sd \"1\": b\n1: a\n", "1:\n  !sd c: x\n\"1\":\n  d: y\n", "true: a\n!sd \"true\": b\n", "x:\n  !sd null: 1\n  \"null\": 2\n", "!sd a: 1\na: 2\n", "a: 2\n!sd a: 1\n", "x:\n  !sd a: {b: 1}\n  a: 2\n", "!sd a: {!sd b: 1}\na: 2\n", "l:\n  - !sd k: 1\n    k: 2\n"] {
         em.case("yaml", json!({"doc": doc, "claims": Value::Null, "paths": [], "expect_ok": "reject", "nontrivial": true, "tag": "keys_collide_after_tag_removal"}));
     }
+    // anchors, aliases and the merge key: serde_yaml expands an alias into a copy of the anchored node (tags included) and
+    // leaves "<<" an ordinary key, so the claims have a member "<<" and every copy of a tagged node is a tagged node
+    let docs: Vec<(&str, Value, Vec<&str>)> = vec![
+        ("base: &b\n  !sd street: Main\n  city: X\nhome:\n  <<: *b\n  zip: 1\n",
+         json!({"base": {"street": "Main", "city": "X"}, "home": {"<<": {"street": "Main", "city": "X"}, "zip": 1}}),
+         vec!["/base/street", "/home/<</street"]),
+        ("defaults: &d {!sd a: 1, b: 2}\nx:\n  <<: [*d, *d]\n",
+         json!({"defaults": {"a": 1, "b": 2}, "x": {"<<": [{"a": 1, "b": 2}, {"a": 1, "b": 2}]}}),
+         vec!["/defaults/a", "/x/<</0/a", "/x/<</1/a"]),
+        ("list:\n  - &s !sd US\n  - *s\n  - DE\n",
+         json!({"list": ["US", "US", "DE"]}),
+         vec!["/list/0", "/list/1"]),
+        ("!sd secret: &v hidden\ncopy: *v\n",
+         json!({"secret": "hidden", "copy": "hidden"}),
+         vec!["/secret"]),
+    ];
+    for (doc, claims, paths) in docs {
+        em.case("yaml", json!({"doc": doc, "claims": claims, "paths": paths, "expect_ok": true, "nontrivial": true, "tag": "anchors_aliases_merge_key"}));
+    }
 }
